@@ -142,13 +142,17 @@ def check_cli(text, mode, category, a, b):
     with tempfile.TemporaryDirectory() as d:
         inp, outp = os.path.join(d, "in.cif"), os.path.join(d, "out.cif")
         open(inp, "w").write(text)
-        args = ["--category", category] + (["--copy-from", a, "--copy-to", b] if mode == "copy" else ["--replace", a, "--values", b])
+        args = ["--category", category] + (["--copy-from", a, "--copy-to", b] if mode == "copy" else ["--replace", a, "--values=" + b])  # (= form: an alphabet may start with '-')
         env = dict(os.environ, PYTHONPATH=src_root)
         r = subprocess.run([sys.executable, "-m", "rnapolis.transformer", inp, outp] + args, capture_output=True, text=True, env=env)
+        try:
+            want = copy_from_to(text, category, a, b) if mode == "copy" else replace_value(text, category, a, b)[0]
+        except Exception as e:
+            # the library refuses this input (e.g. alphabet exhausted): the tool then has no library result to write
+            return [] if r.returncode != 0 else [f"library raised {type(e).__name__} but the CLI exited 0"]
         if r.returncode != 0:
             return [f"CLI exited {r.returncode}: {r.stderr.strip().splitlines()[-1] if r.stderr.strip() else ''}"]
         got = open(outp).read() if os.path.exists(outp) else None
-    want = copy_from_to(text, category, a, b) if mode == "copy" else replace_value(text, category, a, b)[0]
     if got is None:
         return ["CLI wrote no output file"]
     # the library writes through a temp file whose name appears nowhere in the text, so outputs must be identical
